@@ -1,6 +1,7 @@
 package node
 
 import (
+	"os"
 	"fmt"
 	"math/rand"
 	"sort"
@@ -41,6 +42,8 @@ func genC12(rng *rand.Rand, tier string) *core.Plan {
 			p.Ops = append(p.Ops, core.Op{K: "write", A: int64(1 + rng.Intn(12)), S: fmt.Sprint(rng.Intn(1 << 30))})
 		case r < 60:
 			p.Ops = append(p.Ops, core.Op{K: "flush"})
+		case r < 64:
+			p.Ops = append(p.Ops, core.Op{K: "jump", A: int64([]int{65530, 65536, 70000}[rng.Intn(3)])})
 		default:
 			p.Ops = append(p.Ops, core.Op{K: "query", S: fmt.Sprint(rng.Intn(1 << 30)), A: int64(rng.Intn(1 << 20))})
 		}
@@ -84,6 +87,9 @@ func runC12(c *core.RunCtx) {
 		case "flush":
 			ra.flush()
 			rk.flush()
+		case "jump":
+			ra.jump(op.A)
+			rk.jump(op.A)
 		case "query":
 			queryC12(c, ra, rk, op)
 		}
@@ -161,6 +167,19 @@ func queryC12(c *core.RunCtx, ra, rk *run, op core.Op) {
 		}
 		rk.compare(sqlText+" ["+l.name+"]", q, exp, rs)
 		if c.Violated() {
+			if os.Getenv("VERIF_TRACE") != "" {
+				for sh := 0; sh < k; sh++ {
+					rs1, err1 := rk.n.Query(rk.db, sqlText, Layout{Leaves: [][]int{{sh}}})
+					if err1 != nil {
+						c.Sim.Event("  shard %d alone: %v", sh, err1)
+						continue
+					}
+					for _, s1 := range rs1.Series {
+						c.Sim.Event("  shard %d alone: %v %v", sh, s1.Tags, s1.Fields)
+					}
+				}
+				(&run{c: c, n: rk.n, db: rk.db, shards: k}).dumpIndex()
+			}
 			return
 		}
 	}
